@@ -189,6 +189,19 @@ async fn run(cases: &str, out: &str, workdir: &str) {
             for (_, l) in lines {
                 writeln!(w, "{l}").unwrap();
             }
+            // the error code a task row carries (C15: the calling act carries the code its child ended with)
+            let mut errs: Vec<(usize, String)> = rows
+                .iter()
+                .filter_map(|r| {
+                    let e = r.err.as_ref()?;
+                    let code = serde_json::from_str::<serde_json::Value>(e).ok().and_then(|v| v.get("ecode").and_then(|c| c.as_str().map(|x| x.to_string()))).unwrap_or_default();
+                    p.canon.idx.get(&r.tid).map(|i| (*i, format!("case {cid}/{pid}: E {i} {}", if code.is_empty() { "-".to_string() } else { code })))
+                })
+                .collect();
+            errs.sort();
+            for (_, l) in errs {
+                writeln!(w, "{l}").unwrap();
+            }
         }
         let mut evs: Vec<String> = store.events().query(&big).map(|p| p.rows.iter().map(|r| r.id.clone()).collect()).unwrap_or_default();
         evs.sort();
